@@ -883,6 +883,14 @@ inline time_t time_to_epoch (const tm& ltm, int utcdiff=0)
    return static_cast<time_t>(tdays) * 86400 + (ltm.tm_hour + utcdiff) * 3600 + ltm.tm_min * 60 + ltm.tm_sec;
 }
 
+/*! Convert seconds since the epoch to ticks; wraps instead of overflowing for dates beyond the tick range (after 2262)
+  \param secs seconds
+  \return ticks */
+inline Tickval::ticks epoch_to_ticks (time_t secs)
+{
+	return static_cast<Tickval::ticks>(static_cast<unsigned long long>(secs) * static_cast<unsigned long long>(Tickval::billion));
+}
+
 enum TimeIndicator { _time_only, _time_with_ms, _short_date_only, _date_only, _sec_only, _with_ms };
 
 /*! Format Tickval into a string.
@@ -965,7 +973,7 @@ inline Tickval::ticks date_time_parse(const char *ptr, size_t len)
 		parse_decimal(++ptr, 3, millisecond);
 		result = millisecond * Tickval::million; // drop through
 	case 17: //: // 19981231-23:59:59
-		result += time_to_epoch(tms) * Tickval::billion;
+		result += epoch_to_ticks(time_to_epoch(tms));
 		break;
 	default:
 		break;
@@ -1000,7 +1008,7 @@ inline Tickval::ticks time_parse(const char *ptr, size_t len, bool timeonly=fals
       result = millisecond * Tickval::million; // drop through
    case 8: // 23:59:59
 		if (!timeonly)
-			result += time_to_epoch(tms) * Tickval::billion;
+			result += epoch_to_ticks(time_to_epoch(tms));
 		else
 			result += (tms.tm_hour * 3600ULL + tms.tm_min * 60ULL + tms.tm_sec) * Tickval::billion;
       break;
@@ -1025,7 +1033,7 @@ inline Tickval::ticks date_parse(const char *ptr, size_t len)
 		parse_decimal(ptr, 2, tms.tm_mday);
 	else
 		tms.tm_mday = 1;
-	return time_to_epoch(tms) * Tickval::billion;
+	return epoch_to_ticks(time_to_epoch(tms));
 }
 
 //-------------------------------------------------------------------------------------------------
